@@ -23,6 +23,10 @@ void h_bound20(void) {
   g_t[0] = I.opd[0].type; g_t[1] = I.opd[1].type; g_t[2] = I.opd[2].type; g_t[3] = I.opd[3].type;
   CHECK(N_T(&I, 'm') <= 1, "accepted lines have at most one memory operand");
   CHECK(I.key >= 3 && I.key <= 317, "accepted record has a valid table row");
+  /* C10: the operand format n stands for "no operand" and for "one immediate"; an accepted line has
+   * the operand the table row encodes: no operand for a row without operand encoding, an immediate otherwise */
+  if (g_t[0] == 0) CHECK(INSTR_TABLE[I.key].encode_operand == NA, "a line without operand is accepted only for an instruction that takes none");
+  if (g_t[0] == 'i') CHECK(INSTR_TABLE[I.key].encode_operand != NA, "a lone immediate operand is accepted only for an instruction that takes one");
   uint8_t out[48];
   g_len20 = assemble_asm(&I, out);
   CHECK(g_len20 <= BUFFER_TOLERANCE, "no accepted line emits more than the 20 reserve bytes");
